@@ -364,8 +364,11 @@ def new_plan(machine: Machine, seed: int, avoid=()) -> tuple[dict, Rng]:
     return plan, rng
 
 
-def run_seed(machine: Machine, seed: int, avoid=()) -> tuple[dict, dict]:
-    """Generate and execute the run decided by ``seed``."""
+def run_seed(machine: Machine, seed: int, avoid=(),
+             ops_scale: float = 1.0) -> tuple[dict, dict]:
+    """Generate and execute the run decided by ``seed`` (and, for the length
+    of the history only, by ``ops_scale``: the thorough tier explores
+    histories twice as long from the same seeds)."""
     try:
         plan, rng = new_plan(machine, seed, avoid)
     except Exception:  # noqa: BLE001
@@ -373,7 +376,8 @@ def run_seed(machine: Machine, seed: int, avoid=()) -> tuple[dict, dict]:
                 'seed': seed, 'cfg': {}, 'scene': {}, 'ops': []}
         return plan, _mk_result('HARNESS', plan, Stats(), Trace(),
                                 err=traceback.format_exc())
-    res = execute(machine, plan, rng=rng)
+    res = execute(machine, plan, rng=rng,
+                  max_ops=max(1, int(round(machine.max_ops * ops_scale))))
     return plan, res
 
 
@@ -550,7 +554,8 @@ def match_known(known, pid, plan, viol):
 # worker task (runs inside a forked worker process)
 # --------------------------------------------------------------------------
 def run_chunk(machine: Machine, base_seed: int, indices, avoid_frac_known,
-              known, shrink_budget, keep_samples, run_timeout):
+              known, shrink_budget, keep_samples, run_timeout,
+              ops_scale=1.0):
     """Run the seeds of one chunk; shrink and classify violations."""
     import faulthandler
     out = []
@@ -563,7 +568,7 @@ def run_chunk(machine: Machine, base_seed: int, indices, avoid_frac_known,
             avoid = tuple(open_ids)
         faulthandler.dump_traceback_later(run_timeout, exit=True)
         t0 = time.time()
-        plan, res = run_seed(machine, seed, avoid)
+        plan, res = run_seed(machine, seed, avoid, ops_scale)
         res['index'] = i
         res['avoid'] = list(avoid)
         if res['verdict'] == 'VIOLATION':
